@@ -84,7 +84,7 @@ Proof.
   induction a as [c|r c IH|rk k rv v IHk IHv|r fs IH|r c IH] using tsig_ind'; intros b;
     destruct b as [c'|r' c'|rk' k' rv' v'|r' fs'|r' c']; cbn [sig_cmp erase kind_rank];
     try (split; [intros H; apply N.compare_eq in H; try discriminate H;
-                 pose proof (code_num_lt c) as L; try pose proof (code_num_lt c') as L'; lia
+                 try pose proof (code_num_lt c) as L; try pose proof (code_num_lt c') as L'; lia
                 |intros H; discriminate H]).
   - destruct (code_eqb c c') eqn:E.
     + apply code_eqb_eq in E. subst. split; reflexivity.
